@@ -82,6 +82,12 @@ def run(ctx, rep):
         rep.rule(r, tx)
     from rules import C06
     C06.carry_rule(ctx, rep, "C07.e")
+    # "every chunk that did not exist before is uploaded": a changed file must not be taken for unchanged (C11.a/b)
+    from rules import C11
+    from rules.C10 import borrow
+    rep.rule("C07.f", "changed files are re-read: the parent match compares type, size, mtime and ctime; reuse only of indexed content (from C11)")
+    n_ = borrow(rep, ctx, C11, lambda o: o.rule in ("C11.a", "C11.b"), "C07.f")
+    rep.floor("C07.f", "borrowed obligations", n_, 6)
     from rules import typedid
     typedid.run(ctx, rep, "C07.a", owners=["index::indexer::Indexer.indexed"])
     # the set of blobs written in this run survives intermediate index flushes: Indexer::reset does not touch `indexed`
